@@ -47,6 +47,6 @@ carquet_schema_t* tbl_schema(const hist_t* h);
 /* General executor: writes to `f` (create_file) or to `path` (create).  Executes writer operations (each write_batch,
  * new_row_group and the final close counts as one) and, when stop_after >= 0, calls carquet_writer_abort instead of
  * operation number stop_after.  Reports the first non-OK status. */
-typedef struct { carquet_status_t status; const char* where; int nops; int failed_op; bool aborted; bool created; bool closed; carquet_status_t close_status; } tbl_result;      /* closed / close_status: carquet_writer_close was called and what it returned (whatever earlier calls reported) */
+typedef struct { carquet_status_t status; const char* where; int nops; int failed_op; bool aborted; bool created; bool closed; carquet_status_t close_status; int refused_batches; } tbl_result;      /* closed / close_status: carquet_writer_close was called and what it returned (whatever earlier calls reported); refused_batches: write_batch calls that reported a failure */
 void tbl_exec(const hist_t* h, FILE* f, const char* path, int stop_after, tbl_result* r);
 #endif
